@@ -769,6 +769,13 @@ func (st *State) oblige(kind, name, goal string, pos token.Pos) {
 	}
 	if goal == "true" {
 		st.eng.trivial++
+		if safetyKinds[kind] || ownershipKinds[kind] || kind == "cover-pre" {
+			return
+		}
+		// contract-level obligations (events, postconditions, invariants, ...) are recorded even when they hold
+		// syntactically, so that the baseline names them and a later failure is a claimed violation
+		o := &Obligation{Name: name, Kind: kind, Func: st.unit.Name, Pos: st.eng.posString(pos), Goal: goal, Status: "unsat", Solver: "syntactic"}
+		st.eng.addObligation(o)
 		return
 	}
 	o := &Obligation{
